@@ -214,13 +214,18 @@ pub fn ball_pivot_with_centers_2d(
         // the last ball contact point is the one we choose to pivot on
         let mut best: Option<PivotPoint> = None;
         for (ni, _) in neighbors.iter() {
-            // We want to skip the neighbor two elements back, because that's the one we just came
-            // from, and it will otherwise have a perfect intersection at 0 degrees.
-            if results.len() >= 2 && *ni == results[results.len() - 2] {
-                continue;
-            }
+            // The neighbor two elements back is the one we just came from. One of its two
+            // intersections is the position the ball is in right now, which would otherwise be a
+            // perfect intersection at 0 degrees (or a full turn), so that one is skipped. The other
+            // one is a real contact: the ball can swing around the working point and come to rest
+            // against the previous point again before it reaches anything else.
+            let came_from = results.len() >= 2 && *ni == results[results.len() - 2];
 
             for pi in circles[working_index].intersections_with(&circles[*ni]) {
+                if came_from && centers.last().is_some_and(|c| dist(c, &pi) < 1e-9 * radius) {
+                    continue;
+                }
+
                 let di = pi - points[working_index];
                 let angle = directed_angle(&direction, &di, pivot_direction);
                 if angle < 1e-6 {
